@@ -421,6 +421,21 @@ func (x *Exec) evalComposite(n *ast.CompositeLit, st *St, fr *Frame, addr bool, 
 				step(i+1, st)
 				return
 			}
+			// a function literal stored in a field that carries a protocol must be a closure that implements it
+			if want, ok := x.W.CS.FieldProto[x.W.StructKey(ty)+"."+fname]; ok && !x.pure {
+				if fl, isLit := ast.Unparen(ve).(*ast.FuncLit); isLit {
+					okImpl := false
+					if ord, has := fr.fi.Lits[fl]; has {
+						if cc := x.W.CS.ByKey[fmt.Sprintf("%s#%d", fr.fi.Key, ord)]; cc != nil && cc.Implements == want {
+							okImpl = true
+						}
+					}
+					if !okImpl {
+						x.emit(st, oblTemplate{kind: "proto", label: fname, pos: x.W.pos(fl.Pos()), clause: "the function literal stored in " + fname + " implements protocol " + want,
+							name: x.Fn.Key + "/proto#" + fname}, nil, False)
+					}
+				}
+			}
 			x.eval(ve, st, fr, func(st *St, v *Val) {
 				fields[fname] = v
 				step(i+1, st)
